@@ -30,6 +30,8 @@ Facts about the Go code used by the transcription (trusted base, tied to `/repo`
   type UNICHAR), sub class id (blob types 1, 2; read only if its length is > 0) or locator (6, 7, 8) under a
   2-byte length, then chunks: `dataLen` (4 bytes); if the high bit is set the loop ends WITHOUT
   reading the chunk's bytes; a zero length continues; else the chunk is read and appended.
+  (The reader dropping the last chunk and the writer's panic below are part of the known finding
+  `blob-not-functional`, modelled as they are; counterexample theorems in Props/C06/Fields.lean.)
 * writers: `fieldDataBase.writeTo`: status, `DataType.Bytes(endian, value, fmt.MaxLength())` (error →
   `err`, panic → `panic`), for a non-fixed type the length of the produced bytes truncated to the width
   of the length field, the bytes. `fieldDataTxtPtr.WriteTo`: `uint8(len(txtPtr))`, txtptr, the
